@@ -26,6 +26,8 @@
      store's own regenerated methods, the others the promoted methods of the embedded `DenseStore`, as in Go),
      `LSim x st`: `∃ d, x.g = toLow n d ∧ st = .d d ∧ d.kind = .low n` (exact again, every index admissible),
      `lsim_*`, `lowStoreSim n : StoreSim (GLS n) Store`, `low_runAdds`, `low_history_observers`.
+  5. The same for the regenerated `CollapsingHighestDenseStore` (namespace `DDS.GenHighSketch`, last part of the
+     file): `GHS n`, `HSim`, `hsim_*`, `highStoreSim n`, `high_runAdds`, `high_history_observers`.
 
   No fuel hypothesis appears in the statements.  Core Lean only.
 -/
@@ -33,6 +35,7 @@ import DDS.Proofs.GenStoreSim
 import DDS.Proofs.GenDense
 import DDS.Proofs.GenDenseEncode
 import DDS.Proofs.GenCollapsingLow
+import DDS.Proofs.GenCollapsingHigh
 
 namespace DDS.GenDenseSketch
 
@@ -748,3 +751,343 @@ theorem low_history_observers (n : Nat) (m : M) (l : List (F64 × F64)) :
 end sketch
 
 end DDS.GenLowSketch
+
+/-! ## the highest-collapsing store -/
+
+namespace DDS.GenHighSketch
+
+open DDS DDS.GoSem DDS.DStore DDS.Gen.Dense DDS.GenStoreSim
+open DDS.GenDense (GS GHigh toGen ofGen toHigh ofHigh toRes toRes_some toRes_none toHigh_DenseStore reweightFuel)
+open DDS.GenPagSketch (okOr okOr_ok runAdds)
+
+/-- the regenerated `CollapsingHighestDenseStore`; the bin limit is a type index (`MergeWith` of the interface is
+    between stores of one sketch family; the regenerated fast path accepts any limit on the argument) -/
+structure GHS (n : Nat) where
+  g : GHigh
+
+variable {n : Nat}
+
+instance : Inhabited (GHS n) := ⟨⟨NewCollapsingHighestDenseStore (n : Int)⟩⟩
+
+/-! ### the methods: `Add`, `AddWithCount`, `MergeWith`, `Copy`, `Clear` are the store's own, the others are the
+    promoted methods of the embedded `DenseStore` -/
+
+def gAdd (x : GHS n) (i : Int) : GHS n :=
+  ⟨okOr (CollapsingHighestDenseStore.Add (GenDense.extendFuel (ofHigh x.g) i i) x.g i) x.g⟩
+
+def gAddWithCount (x : GHS n) (i : Int) (c : F64) : GHS n :=
+  match ratOfF64 c with
+  | some w => ⟨okOr (CollapsingHighestDenseStore.AddWithCount (GenDense.extendFuel (ofHigh x.g) i i) x.g i w) x.g⟩
+  | none => x
+
+def gCopy (x : GHS n) : GHS n := ⟨CollapsingHighestDenseStore.Copy x.g⟩
+
+def gClear (x : GHS n) : GHS n := ⟨okOr (CollapsingHighestDenseStore.Clear 1 x.g) x.g⟩
+
+def gIsEmpty (x : GHS n) : Bool := DenseStore.IsEmpty x.g.DenseStore
+
+def gTotalCount (x : GHS n) : F64 := .fin (DenseStore.TotalCount x.g.DenseStore)
+
+def gMinIndex (x : GHS n) : Int × GoErr := DenseStore.MinIndex x.g.DenseStore
+
+def gMaxIndex (x : GHS n) : Int × GoErr := DenseStore.MaxIndex x.g.DenseStore
+
+def gKeyAtRankQ (x : GHS n) (r : Rat) : Int := okOr (DenseStore.KeyAtRank 1 x.g.DenseStore r) 0
+
+def gKeyAtRank (x : GHS n) (r : F64) : Int :=
+  match r with
+  | .fin q => gKeyAtRankQ x q
+  | .ninf => gKeyAtRankQ x 0
+  | _ => (gMaxIndex x).1
+
+def gMergeWith (x o : GHS n) : GHS n :=
+  ⟨okOr (CollapsingHighestDenseStore.MergeWith (GenHigh.mergeFuel (ofHigh x.g) (ofHigh o.g)) x.g o.g) x.g⟩
+
+/-- `Reweight` is the embedded `DenseStore`'s: it rewrites the embedded store only -/
+def gReweight (x : GHS n) (w : F64) : GHS n × GoErr :=
+  if F64.le w (.fin 0) then (x, GenSketch.errStoreReweight)
+  else match w with
+    | .fin q =>
+      match DenseStore.Reweight (reweightFuel (ofGen x.g.DenseStore)) x.g.DenseStore q with
+      | .ok (g', e) => (⟨{ x.g with DenseStore := g' }⟩, e)
+      | _ => (x, GoErr.nil)
+    | _ => (x, GoErr.nil)
+
+def gEncode (x : GHS n) (b : List (BitVec 8)) (t : Gen.Encoding.FlagType) : GHS n × List (BitVec 8) :=
+  (x, okOr (DenseStore.Encode (GenDenseEncode.encodeFuel (ofGen x.g.DenseStore)) x.g.DenseStore b t) b)
+
+def gForEachList (x : GHS n) : List (Int × F64) :=
+  ((ofHigh x.g).binsList.getD []).map (fun p => (p.1, F64.fin p.2))
+
+@[reducible] def baseI : StoreI (GHS n) where
+  Add := gAdd
+  AddWithCount := gAddWithCount
+  Copy := gCopy
+  Clear := gClear
+  IsEmpty := gIsEmpty
+  MaxIndex := gMaxIndex
+  MinIndex := gMinIndex
+  TotalCount := gTotalCount
+  KeyAtRank := gKeyAtRank
+  MergeWith := gMergeWith
+  Reweight := gReweight
+  Encode := gEncode
+  ForEachList := gForEachList
+  DecodeAndMergeWith x b _ := (x, b, GoErr.nil)
+
+def gDecode (x : GHS n) (b : List (BitVec 8)) (sub : Gen.Encoding.SubFlag) : GHS n × List (BitVec 8) × GoErr :=
+  match @Gen.StoreDecode.DecodeAndMergeWith (GHS n) baseI (3 * b.length + 64) x b sub with
+  | .ok r => r
+  | _ => (x, b, GoErr.nil)
+
+instance (priority := low) ghStoreI : StoreI (GHS n) where
+  Add := gAdd
+  AddWithCount := gAddWithCount
+  Copy := gCopy
+  Clear := gClear
+  IsEmpty := gIsEmpty
+  MaxIndex := gMaxIndex
+  MinIndex := gMinIndex
+  TotalCount := gTotalCount
+  KeyAtRank := gKeyAtRank
+  MergeWith := gMergeWith
+  Reweight := gReweight
+  Encode := gEncode
+  ForEachList := gForEachList
+  DecodeAndMergeWith := gDecode
+
+@[simp] theorem ghs_add (x : GHS n) (i : Int) : StoreI.Add x i = gAdd x i := rfl
+@[simp] theorem ghs_addWithCount (x : GHS n) (i : Int) (c : F64) :
+    StoreI.AddWithCount x i c = gAddWithCount x i c := rfl
+@[simp] theorem ghs_copy (x : GHS n) : StoreI.Copy x = gCopy x := rfl
+@[simp] theorem ghs_clear (x : GHS n) : StoreI.Clear x = gClear x := rfl
+@[simp] theorem ghs_isEmpty (x : GHS n) : StoreI.IsEmpty x = gIsEmpty x := rfl
+@[simp] theorem ghs_maxIndex (x : GHS n) : StoreI.MaxIndex x = gMaxIndex x := rfl
+@[simp] theorem ghs_minIndex (x : GHS n) : StoreI.MinIndex x = gMinIndex x := rfl
+@[simp] theorem ghs_totalCount (x : GHS n) : StoreI.TotalCount x = gTotalCount x := rfl
+@[simp] theorem ghs_keyAtRank (x : GHS n) (r : F64) : StoreI.KeyAtRank x r = gKeyAtRank x r := rfl
+@[simp] theorem ghs_mergeWith (x o : GHS n) : StoreI.MergeWith x o = gMergeWith x o := rfl
+@[simp] theorem ghs_reweight (x : GHS n) (w : F64) : StoreI.Reweight x w = gReweight x w := rfl
+
+/-! ### fuel of the model image -/
+
+theorem extendFuel_ofHigh (m : Int) (d : DStore) (a b : Int) :
+    GenDense.extendFuel (ofHigh (toHigh m d)) a b = GenDense.extendFuel d a b := rfl
+
+theorem mergeFuel_ofHigh (m m' : Int) (d o : DStore) :
+    GenHigh.mergeFuel (ofHigh (toHigh m d)) (ofHigh (toHigh m' o)) = GenHigh.mergeFuel d o := rfl
+
+/-! ### the simulation relation: exact -/
+
+/-- the regenerated store is the image of the model store of kind `.high n` the model side holds -/
+def HSim (x : GHS n) (st : Store) : Prop :=
+  ∃ d : DStore, x.g = toHigh (n : Int) d ∧ st = .d d ∧ d.kind = .high n
+
+theorem hsim_new : HSim (⟨NewCollapsingHighestDenseStore (n : Int)⟩ : GHS n) (Store.new (.high n)) :=
+  ⟨DStore.new (.high n), GenHigh.new_eq n, rfl, rfl⟩
+
+theorem hsim_isEmpty {x : GHS n} {st : Store} (h : HSim x st) :
+    (StoreI.IsEmpty x : Bool) = StoreI.IsEmpty st := by
+  obtain ⟨d, hx, rfl, _⟩ := h
+  simp only [ghs_isEmpty, gIsEmpty, hx, toHigh_DenseStore, GenDense.isEmpty_eq, GenSketch.store_isEmpty,
+    Store.isEmpty]
+
+theorem hsim_totalCount {x : GHS n} {st : Store} (h : HSim x st) :
+    (StoreI.TotalCount x : F64) = StoreI.TotalCount st := by
+  obtain ⟨d, hx, rfl, _⟩ := h
+  simp only [ghs_totalCount, gTotalCount, hx, toHigh_DenseStore, GenDense.totalCount_eq,
+    GenSketch.store_totalCount, Store.totalCount]
+
+theorem hsim_minIndex {x : GHS n} {st : Store} (h : HSim x st) :
+    (StoreI.MinIndex x : Int × GoErr) = StoreI.MinIndex st := by
+  obtain ⟨d, hx, rfl, _⟩ := h
+  simp only [ghs_minIndex, gMinIndex, hx, toHigh_DenseStore, GenDense.minIndex_eq, GenSketch.store_minIndex,
+    GenSketch.storeMinIndex, Store.minIndex?, GenDenseSketch.errMin_eq]
+  cases d.minIndex? <;> rfl
+
+theorem hsim_maxIndex {x : GHS n} {st : Store} (h : HSim x st) :
+    (StoreI.MaxIndex x : Int × GoErr) = StoreI.MaxIndex st := by
+  obtain ⟨d, hx, rfl, _⟩ := h
+  simp only [ghs_maxIndex, gMaxIndex, hx, toHigh_DenseStore, GenDense.maxIndex_eq, GenSketch.store_maxIndex,
+    GenSketch.storeMaxIndex, Store.maxIndex?, GenDenseSketch.errMax_eq]
+  cases d.maxIndex? <;> rfl
+
+theorem hsim_keyAtRank {x : GHS n} {st : Store} (h : HSim x st) (r : F64) :
+    (StoreI.KeyAtRank x r : Int) = StoreI.KeyAtRank st r := by
+  obtain ⟨d, hx, rfl, _⟩ := h
+  simp only [ghs_keyAtRank, gKeyAtRank, gKeyAtRankQ, gMaxIndex, GenSketch.store_keyAtRank,
+    Sketch.storeKeyAtRank, hx, toHigh_DenseStore, GenDense.keyAtRank_eq, okOr_ok, GenDense.maxIndex_eq,
+    Store.keyAtRank, Store.maxIndex?]
+  cases r with
+  | fin q => rfl
+  | ninf => rfl
+  | pinf => cases d.maxIndex? <;> rfl
+  | nan => cases d.maxIndex? <;> rfl
+
+/-! ### mutators -/
+
+theorem hsim_addWithCount {x : GHS n} {st : Store} (h : HSim x st) (i : Int) (c : F64) :
+    HSim (StoreI.AddWithCount x i c : GHS n) (StoreI.AddWithCount st i c) := by
+  obtain ⟨d, hx, rfl, hk⟩ := id h
+  obtain ⟨g⟩ := x
+  simp only at hx
+  subst hx
+  cases c with
+  | fin w =>
+    simp only [ghs_addWithCount, gAddWithCount, ratOfF64, extendFuel_ofHigh, GenSketch.store_addWithCount,
+      GenSketch.storeAddF, Sketch.addF, Store.addWithCount]
+    rw [GenHigh.addWithCount_rel _ n d i w hk (Nat.le_refl _)]
+    cases hm : d.addWithCount i w with
+    | none => exact ⟨d, rfl, rfl, hk⟩
+    | some d' => exact ⟨d', rfl, rfl, GenHigh.addWithCount_kind n d d' i w hk hm⟩
+  | pinf => exact h
+  | ninf => exact h
+  | nan => exact h
+
+theorem hsim_add {x : GHS n} {st : Store} (h : HSim x st) (i : Int) :
+    HSim (StoreI.Add x i : GHS n) (StoreI.Add st i) := by
+  obtain ⟨d, hx, rfl, hk⟩ := h
+  obtain ⟨g⟩ := x
+  simp only at hx
+  subst hx
+  simp only [ghs_add, gAdd, extendFuel_ofHigh, GenSketch.store_add, Store.addWithCount]
+  rw [GenHigh.add_rel _ n d i hk (Nat.le_refl _)]
+  cases hm : d.addWithCount i 1 with
+  | none => exact ⟨d, rfl, rfl, hk⟩
+  | some d' => exact ⟨d', rfl, rfl, GenHigh.addWithCount_kind n d d' i 1 hk hm⟩
+
+theorem hsim_clear {x : GHS n} {st : Store} (h : HSim x st) :
+    HSim (StoreI.Clear x : GHS n) (StoreI.Clear st) := by
+  obtain ⟨d, hx, rfl, hk⟩ := h
+  refine ⟨d.clear, ?_, rfl, hk⟩
+  simp only [ghs_clear, gClear, hx, GenHigh.clear_rel, okOr_ok]
+
+theorem hsim_copy {x : GHS n} {st : Store} (h : HSim x st) :
+    HSim (StoreI.Copy x : GHS n) (StoreI.Copy st) := by
+  obtain ⟨d, hx, rfl, hk⟩ := h
+  refine ⟨d, ?_, rfl, hk⟩
+  simp only [ghs_copy, gCopy, hx, GenHigh.copy_eq]
+
+/-- the dispatch of `Store.mergeWith` on two highest-collapsing stores is the same-kind merge -/
+theorem store_mergeWith_high (a b : DStore) (m : Nat) (ha : a.kind = .high n) (hb : b.kind = .high m) :
+    (Store.d a).mergeWith (.d b) = (a.mergeSame b).map .d := by
+  unfold Store.mergeWith
+  simp only [ha, hb]
+  by_cases he : b.isEmpty = true
+  · simp only [he, if_true]
+    unfold DStore.mergeSame
+    rw [if_pos he]; rfl
+  · simp only [he, Bool.false_eq_true, if_false, if_true]
+
+theorem hsim_mergeWith {x y : GHS n} {st so : Store} (h : HSim x st) (h' : HSim y so) :
+    HSim (StoreI.MergeWith x y : GHS n) (StoreI.MergeWith st so) := by
+  obtain ⟨d, hx, rfl, hk⟩ := h
+  obtain ⟨o, hy, rfl, hko⟩ := h'
+  obtain ⟨g⟩ := x
+  obtain ⟨g'⟩ := y
+  simp only at hx hy
+  subst hx hy
+  simp only [ghs_mergeWith, gMergeWith, mergeFuel_ofHigh, GenSketch.store_mergeWith,
+    store_mergeWith_high d o n hk hko]
+  rw [GenHigh.mergeWith_rel _ n (n : Int) d o hk (Nat.le_refl _)]
+  cases hm : d.mergeSame o with
+  | none => exact ⟨d, rfl, rfl, hk⟩
+  | some d' => exact ⟨d', rfl, rfl, GenHigh.mergeSame_kind n d d' o hk hm⟩
+
+/-- `reweight` only rewrites bins and count -/
+theorem reweight_collapsed (s t : DStore) (w : Rat) (h : s.reweight w = some t) :
+    t.isCollapsed = s.isCollapsed := by
+  unfold DStore.reweight at h
+  simp only [Option.bind_eq_bind, Option.bind_eq_some_iff] at h
+  obtain ⟨b, _, h2⟩ := h
+  cases h2; rfl
+
+theorem hsim_reweight {x : GHS n} {st : Store} (h : HSim x st) (w : F64) :
+    (StoreI.Reweight x w).2 = (StoreI.Reweight st w).2 ∧
+      HSim (StoreI.Reweight x w).1 (StoreI.Reweight st w).1 := by
+  simp only [ghs_reweight, gReweight, GenSketch.store_reweight, GenSketch.storeReweight]
+  by_cases hle : F64.le w (.fin 0) = true
+  · simp only [hle, if_true]; exact ⟨trivial, h⟩
+  · simp only [hle, Bool.false_eq_true, if_false]
+    cases w with
+    | fin q =>
+      have hq : ¬ q ≤ 0 := by
+        intro hq; rw [GenSketch.le_fin_zero] at hle; exact hle (by simpa using hq)
+      have hpos : 0 < q := Rat.not_le.mp hq
+      obtain ⟨d, hx, rfl, hk⟩ := id h
+      obtain ⟨g⟩ := x
+      simp only at hx
+      subst hx
+      by_cases h1 : q = 1
+      · subst h1
+        simp only [toHigh_DenseStore, GenDense.reweight_one]
+        have : (Store.d d).reweight 1 = some (.ok (.d d)) := by
+          unfold Store.reweight; rw [if_neg hq, if_pos rfl]
+        simp only [this]
+        exact ⟨trivial, h⟩
+      · simp only [toHigh_DenseStore, GenDenseSketch.reweightFuel_ofGen]
+        rw [GenDense.reweight_rel _ d q hpos h1 (Nat.le_refl _)]
+        have hm : (Store.d d).reweight q = (d.reweight q).map (fun t => .ok (.d t)) := by
+          unfold Store.reweight; rw [if_neg hq, if_neg h1]
+        rw [hm]
+        cases hr : d.reweight q with
+        | none => exact ⟨rfl, d, rfl, rfl, hk⟩
+        | some d' =>
+          refine ⟨rfl, d', ?_, rfl, (GenDense.reweight_kind d d' q hr).trans hk⟩
+          simp only [toRes_some, toHigh, reweight_collapsed d d' q hr]
+    | pinf => exact ⟨rfl, h⟩
+    | ninf => exact absurd rfl hle
+    | nan => exact ⟨rfl, h⟩
+
+/-! ### the `StoreSim` instance and the sketch-level corollaries -/
+
+/-- the regenerated highest-collapsing store simulates the model's store of kind `.high n`; every index is
+    admissible -/
+def highStoreSim (n : Nat) : StoreSim (GHS n) Store where
+  R := HSim
+  Adm := fun _ => True
+  isEmpty := hsim_isEmpty
+  totalCount := hsim_totalCount
+  minIndex := hsim_minIndex
+  maxIndex := hsim_maxIndex
+  keyAtRank := hsim_keyAtRank
+  addWithCount := fun h i _ c _ => hsim_addWithCount h i c
+  add := fun h i _ => hsim_add h i
+  clear := hsim_clear
+  copy := hsim_copy
+  mergeWith := hsim_mergeWith
+  reweight := hsim_reweight
+
+section sketch
+
+open DDS.Gen.Sketch
+
+variable {M : Type} [MapI M] [Inhabited M]
+
+omit [Inhabited M] in
+theorem high_routed (m : M) (v : F64) : RoutedG (highStoreSim n) m v := ⟨fun _ => trivial, fun _ => trivial⟩
+
+/-- after ANY history of `AddWithCount` calls from
+    `NewDDSketch(m, NewCollapsingHighestDenseStore(n), NewCollapsingHighestDenseStore(n))` the two sketches are
+    related (stores exactly the images of the model's) and the errors agree — no side condition -/
+theorem high_runAdds (n : Nat) (m : M) (l : List (F64 × F64)) :
+    let a := runAdds (NewDDSketch m (⟨NewCollapsingHighestDenseStore (n : Int)⟩ : GHS n)
+      ⟨NewCollapsingHighestDenseStore (n : Int)⟩) l
+    let b := runAdds (NewDDSketch m (Store.new (.high n)) (Store.new (.high n))) l
+    a.2 = b.2 ∧ SkSimG (highStoreSim n) a.1 b.1 :=
+  runAdds_paramG (highStoreSim n) l (skSimG_new (highStoreSim n) m hsim_new hsim_new)
+    (fun p _ => high_routed m p.1)
+
+/-- … and every observer agrees -/
+theorem high_history_observers (n : Nat) (m : M) (l : List (F64 × F64)) :
+    let a := runAdds (NewDDSketch m (⟨NewCollapsingHighestDenseStore (n : Int)⟩ : GHS n)
+      ⟨NewCollapsingHighestDenseStore (n : Int)⟩) l
+    let b := runAdds (NewDDSketch m (Store.new (.high n)) (Store.new (.high n))) l
+    a.2 = b.2 ∧ DDSketch.GetCount a.1 = DDSketch.GetCount b.1 ∧ DDSketch.IsEmpty a.1 = DDSketch.IsEmpty b.1 ∧
+    (∀ q, DDSketch.GetValueAtQuantile a.1 q = DDSketch.GetValueAtQuantile b.1 q) ∧
+    DDSketch.GetMinValue a.1 = DDSketch.GetMinValue b.1 ∧ DDSketch.GetMaxValue a.1 = DDSketch.GetMaxValue b.1 :=
+  history_observers_paramG (highStoreSim n) m hsim_new hsim_new l (fun p _ => high_routed m p.1)
+
+end sketch
+
+end DDS.GenHighSketch
